@@ -22,7 +22,7 @@ def T(i: int) -> datetime.datetime:
 
 
 def tick(d: datetime.datetime) -> int:
-    return int((d - T0) / TICK)
+    return (d - T0) // TICK
 
 
 async def run_bt_async(D: dict, suspend: str = "sleep0", seed: int = 0, dup_subscriptions: bool = True) -> dict:
@@ -31,6 +31,11 @@ async def run_bt_async(D: dict, suspend: str = "sleep0", seed: int = 0, dup_subs
 
     logging.disable(logging.CRITICAL)
     rng = random.Random(seed)
+    # one model tick is an hour, 100 ms (several ticks inside one UTC second: the scheduler must order jobs by the full
+    # datetime, not by whole seconds) or 1 microsecond (the finest datetime resolution); a separate stream keeps `rng` as it was
+    global TICK
+    TICK = datetime.timedelta(microseconds=D["tick_us"]) if "tick_us" in D else random.Random(seed * 7919 + 13).choice(
+        [datetime.timedelta(hours=1), datetime.timedelta(hours=1), datetime.timedelta(milliseconds=100), datetime.timedelta(microseconds=1)])
     d = bs.backtesting_dispatcher(max_concurrent=D["maxc"])
     d.stop_on_handler_exceptions = bool(D.get("stopOnErr"))
     log: List[dict] = []
